@@ -39,7 +39,7 @@ RULE = ('cases = (kind, mode, package, sources, permutation | constant | history
         'history has a repeated or interleaved source; distinct = canonical hash of the generated inputs')
 REQUIRED_BRANCHES = ['fmt_files', 'fmt_cube_wav', 'fmt_cube_named', 'fmt_cube_mixed', 'memmap_on', 'memmap_off', 'remove_resolved',
                      'names_unsorted', 'filter_perm_cube', 'model_perm_cube', 'history_cube',
-                     'filter_perm', 'filter_perm_interior', 'shared_extinction_object', 'model_perm', 'scale', 'history', 'mode_indep', 'mode_dist', 'tie_group',
+                     'filter_perm', 'filter_perm_interior', 'same_theta_diff_tables', 'history_reassign', 'shared_extinction_object', 'model_perm', 'scale', 'history', 'mode_indep', 'mode_dist', 'tie_group',
                      'scale_up', 'scale_down', 'limits_present', 'flag4_present', 'ignored_present', 'model_corr',
                      'history_repeat', 'history_interleaved']
 ASSUMPTIONS = ['IEEE rounding is not modelled: permuting filters changes the order of the floating-point sums, scaling changes '
@@ -135,7 +135,8 @@ def gen_sources(rng, pkg, n):
 
 
 def gen_case(rng, kind, mode, perm=None, nb=None, nm=None, c=None, interior=False, fmt=None, memmap=None,
-             resolved=None):
+             resolved=None, difftab=None):
+    perm_given = perm is not None
     nb = nb or rng.randint(2, 6)
     nm = nm or rng.randint(2 if kind == 'model_perm' else 1, 8)
     case = gen_package(rng, nb, nm, dup=(kind == 'model_perm'))
@@ -181,6 +182,33 @@ def gen_case(rng, kind, mode, perm=None, nb=None, nm=None, c=None, interior=Fals
         else:
             hist = [rng.randrange(k) for _ in range(n)]
         case['history'] = hist
+    if difftab is None:
+        difftab = (kind == 'filter_perm' and mode == 'dist' and nb >= 2 and rng.random() < 0.3)
+    if difftab:
+        # convolved files with DIFFERENT aperture tables, two filters requested at the SAME angular aperture, theta * dmax
+        # beyond the smaller table's largest aperture (where the code resets the aperture to that table's maximum)
+        fmt = 'files'
+        aps = case['aps']
+        small = aps[:-1] if len(aps) >= 3 else [aps[0], float('%.3g' % ((aps[0] + aps[-1]) / 2.))]
+        a, b = rng.sample(range(nb), 2)
+        case['aps_by_filter'] = [list(small) if j == a else list(aps) for j in range(nb)]
+        for i in range(nm):
+            case['grow'][i][a] = case['grow'][i][a][:len(small)]
+        dmin, dmax = case['drange']
+        th = max(aps[0] / (dmin * 1000.) * 1.01, small[-1] * rng.uniform(1.2, 3.) / (dmax * 1000.))
+        th = float('%.4g' % th)
+        if th * dmin * 1000. < aps[0]:
+            th = float('%.4g' % (th * 1.01))
+        case['theta'][a] = th
+        case['theta'][b] = th
+        case['same_theta'] = [a, b]
+        if kind == 'filter_perm' and not perm_given:
+            # make sure the permutation reverses the reading order of the two filters
+            pm = case['perm']
+            if (pm.index(a) < pm.index(b)) == (a < b):
+                ia, ib = pm.index(a), pm.index(b)
+                pm[ia], pm[ib] = pm[ib], pm[ia]
+            case['perm'] = pm
     # package format / storage / resolved-model removal / model names: drawn last, so that the streams above are unchanged
     fmt = fmt or rng.choice(['files', 'files', 'cube_wav', 'cube_named', 'cube_mixed'])
     case['fmt'] = fmt
@@ -198,7 +226,8 @@ def gen_case(rng, kind, mode, perm=None, nb=None, nm=None, c=None, interior=Fals
 def gen_cases(seed, tier):
     i = 0
     # directed block: one of every kind x mode, with limits / flag 4 / ignored bands present by construction
-    directed = [('filter_perm', 'indep', None), ('filter_perm', 'dist', None),
+    directed = [('filter_perm', 'dist', 'difftab'), ('filter_perm', 'dist', 'difftab'),
+                ('filter_perm', 'indep', None), ('filter_perm', 'dist', None),
                 ('filter_perm', 'indep', 'interior'), ('filter_perm', 'dist', 'interior'), ('model_perm', 'indep', None),
                 ('model_perm', 'dist', None), ('scale', 'indep', 2500.), ('scale', 'indep', 0.004),
                 ('history', 'indep', None), ('history', 'dist', None)]
@@ -209,10 +238,13 @@ def gen_cases(seed, tier):
     for kind, mode, c in directed:
         rng = case_rng(seed, PID, i)
         interior = (c == 'interior')
-        c = None if interior else c
+        difftab = (c == 'difftab')
+        c = None if (interior or difftab) else c
         fmt, mm, rr = variants[i % len(variants)]
+        if difftab:
+            fmt, mm = 'files', False
         case = gen_case(rng, kind, mode, nb=5, nm=(4 if kind == 'model_perm' else None), c=c, interior=interior,
-                        fmt=fmt, memmap=mm, resolved=(rr and mode == 'dist'))
+                        fmt=fmt, memmap=mm, resolved=(rr and mode == 'dist'), difftab=(True if difftab else False))
         case['sources'][0] = gen_source(rng, case, flags=[1, 4, 3, 0, 2])
         if kind == 'history':
             case['history'] = [0, 1, 0, 0, 1]
@@ -268,6 +300,9 @@ def write_package(case, d, mode, row_order=None):
     dist = (mode != 'indep')
     nap = len(case['aps']) if dist else 1
 
+    def aps_of(j):
+        return case['aps_by_filter'][j] if case.get('aps_by_filter') else case['aps']
+
     def flux_of(i, j):
         return [case['models'][i][j] * g for g in case['grow'][i][j]] if dist else [case['models'][i][j]]
 
@@ -284,8 +319,9 @@ def write_package(case, d, mode, row_order=None):
                               apertures_au=(case['aps'] if dist else None), aperture_dependent=dist,
                               logd_step=case['step'])
     for j in sorted(named_filters(case)):
+        apj = aps_of(j) if dist else None
         pk.write_convolved(d, 'F%d' % j, case['wavs'][j], [names[i] for i in order], [flux_of(i, j) for i in order],
-                           np.zeros((nm, nap)), apertures_au=(case['aps'] if dist else None))
+                           np.zeros((nm, len(apj) if dist else 1)), apertures_au=apj)
 
 
 def make_ext(case):
@@ -461,6 +497,13 @@ def run_filter_perm(case, use_model, branches, stats, dirs):
     write_package(case, d, mode)
     if interior_only(perm):
         branches.add('filter_perm_interior')
+    if case.get('same_theta') and mode == 'dist':
+        a_, b_ = case['same_theta']
+        tabs = case['aps_by_filter']
+        if (case['theta'][a_] == case['theta'][b_] and tabs[a_][-1] != tabs[b_][-1]
+                and case['theta'][a_] * case['drange'][1] * 1000. > min(tabs[a_][-1], tabs[b_][-1])
+                and (perm.index(a_) < perm.index(b_)) != (a_ < b_)):
+            branches.add('same_theta_diff_tables')
     ext = make_ext(case)
     branches.add('shared_extinction_object')
     fa = make_fitter(case, d, mode, ext=ext)
@@ -656,6 +699,16 @@ def run_history(case, use_model, branches, stats, dirs):
             return CaseResult(False, violates=True,
                               detail='history %r step %d (%s): result for source %d differs from the fit of that source alone on a '
                                      'fresh Fitter: %s (source %r)' % (hist, step, mode, i, diff, case['sources'][i]))
+    # the same Source objects, re-used after their valid / flux / error have been re-assigned: every fit must equal the fit of a
+    # fresh Source with that content (nothing about a source may be remembered across calls)
+    for i in sorted(set(hist)):
+        err = c03.same_object_history(f, case['sources'][i], branches)
+        branches.add('history_reassign')
+        if err:
+            return CaseResult(False, violates=True, detail='history (%s), source %d: %s' % (mode, i, err))
+        if fitter_digest(f) != d0:
+            return CaseResult(False, violates=True,
+                              detail='history (%s): re-fitting re-assigned sources modified the fitter' % mode)
     return None
 
 
